@@ -64,7 +64,23 @@ func keccak(b []byte) (h [32]byte) {
 	return h
 }
 
-var emptyCodeHash = keccak(nil)
+var (
+	addrHash [NA + 1][32]byte
+	slotHash [NS][32]byte
+	codeHash = map[string][32]byte{}
+)
+
+func init() {
+	for i, a := range addrs {
+		addrHash[i] = keccak(a[:])
+	}
+	for i, s := range slots {
+		slotHash[i] = keccak(s[:])
+	}
+	for _, c := range codes {
+		codeHash[string(c)] = keccak(c)
+	}
+}
 
 // ---------------------------------------------------------------- operations
 
@@ -534,7 +550,7 @@ func (m *model) observe() *obs {
 		x.Nonce = ac.nonce
 		x.Code = string(ac.code)
 		if ac.exists {
-			x.CodeHash = keccak(ac.code)
+			x.CodeHash = codeHash[string(ac.code)]
 		}
 		x.CodeSize = len(ac.code)
 		if i < NA {
